@@ -258,6 +258,11 @@ class ParamikoTransport(Transport):
             if self.socket:
                 self.socket.close()
 
+        if self.session:
+            # the session may exist without a channel (i.e. authentication failed during open), make
+            # sure its worker thread and socket do not outlive the transport
+            self.session.close()
+
         self.session = None
         self.session_channel = None
 
